@@ -96,7 +96,7 @@ class Run:
         rep = {"property": self.pid, "kind": kind, "case": case, "detail": detail,
                "seed": env.seed(), "tier": self.tier, "repo": env.REPO}
         h = sha({"case": case, "kind": kind})
-        path = os.path.join(env.VERIF, "replays", f"{self.pid}-{h}.json")
+        path = os.path.join(os.environ.get("VERIF_REPLAY_DIR") or os.path.join(env.VERIF, "replays"), f"{self.pid}-{h}.json")
         os.makedirs(os.path.dirname(path), exist_ok=True)
         if len(self.violations) < 200:
             try:
